@@ -137,11 +137,11 @@ equal and leaves the node alone: the hydrated DOM shows `" "`, the client-built 
 theorem C05_empty_text_witness :
     Comparable (.text "") (.text "") ∧
       toHtml (.text "") = [' '] ∧
-      (runHydrated (domOf (.text "")) (.text "") (.text "")).kids = some [.text " "] ∧
-      runCsr (.text "") (.text "") = some [.text ""] ∧
+      (runHydrated (domOf (.text "")) (.text "") (.text "")).kids.map (treesBeq [.text " "]) = some true ∧
+      (runCsr (.text "") (.text "")).map (treesBeq [.text ""]) = some true ∧
       likeCsr (domOf (.text "")) (.text "") (.text "") = false := by
-  refine ⟨⟨⟨.text, by decide, by decide⟩, by decide, by decide, by decide, by decide⟩, by decide, by decide,
-    by decide, by decide⟩
+  refine ⟨⟨⟨.text, by decide, by decide⟩, by decide, by decide, by decide, by decide⟩, by decide,
+    by decide +kernel, by decide +kernel, by decide +kernel⟩
 
 theorem C05_then_like_csr_full_false : ¬ C05_then_like_csr_full := by
   intro h
@@ -153,7 +153,7 @@ theorem C05_then_like_csr_full_false : ¬ C05_then_like_csr_full := by
 the client-built tree shows `ab` -/
 theorem C05_empty_text_witness_mid :
     likeCsr (domOf (.tuple [.text "a", .text "", .text "b"])) (.tuple [.text "a", .text "", .text "b"])
-      (.tuple [.text "a", .text "", .text "b"]) = false := by decide
+      (.tuple [.text "a", .text "", .text "b"]) = false := by decide +kernel
 
 /-- the strongest statement expected to hold of the code (class `empty-text` excluded: no string of
 `a` is empty) — OPEN: stated, not proved; the correspondence run evaluates it on every generated pair
@@ -161,53 +161,55 @@ theorem C05_empty_text_witness_mid :
 def C05_then_like_csr_partial_stmt : Prop :=
   ∀ a b : View, Comparable a b → hasEmptyText a = false → likeCsr (domOf a) a b = true
 
-/-! ## non-vacuity: the hypotheses are satisfiable and the conclusions bite -/
+/-! ## non-vacuity: the hypotheses are satisfiable and the conclusions bite
+
+(closed terms evaluated by the kernel: `decide +kernel` — no axiom beyond the kernel's reduction) -/
 
 section examples
 
 /-- adjacent strings in an element: `<p>Hello, <!>World<!>!</p>` -/
 def exAdj (name : String) : View := .elem "p" [] (.tuple [.text "Hello, ", .text name, .text "!"])
-example : wfV [[]] (exAdj "World") = true := by decide
-example : toHtml (exAdj "World") = "<p>Hello, <!>World<!>!</p>".toList := by decide
-example : loadOK (domOf (exAdj "World")) = true := by decide
+example : wfV [[]] (exAdj "World") = true := by decide +kernel
+example : toHtml (exAdj "World") = "<p>Hello, <!>World<!>!</p>".toList := by decide +kernel
+example : loadOK (domOf (exAdj "World")) = true := by decide +kernel
 example : Comparable (exAdj "World") (exAdj "Bob") :=
-  ⟨⟨.elem "p" [] (.tuple [.text, .text, .text]), by decide, by decide⟩, by decide, by decide, by decide, by decide⟩
-example : likeCsr (domOf (exAdj "World")) (exAdj "World") (exAdj "Bob") = true := by decide
+  ⟨⟨.elem "p" [] (.tuple [.text, .text, .text]), by decide +kernel, by decide +kernel⟩, by decide +kernel, by decide +kernel, by decide +kernel, by decide +kernel⟩
+example : likeCsr (domOf (exAdj "World")) (exAdj "World") (exAdj "Bob") = true := by decide +kernel
 
 /-- the empty string: rendered as `" "`, adopted, and fine as soon as the rebuild changes it -/
-example : wfV [[]] (.text "") = true := by decide
-example : domOf (.text "") = [.text [' ']] := by decide
-example : loadOK (domOf (.text "")) = true := by decide
-example : likeCsr (domOf (.text "")) (.text "") (.text "now") = true := by decide
-example : hasEmptyText (.text "") = true := by decide
+example : wfV [[]] (.text "") = true := by decide +kernel
+example : domOf (.text "") = [.text [' ']] := by decide +kernel
+example : loadOK (domOf (.text "")) = true := by decide +kernel
+example : likeCsr (domOf (.text "")) (.text "") (.text "now") = true := by decide +kernel
+example : hasEmptyText (.text "") = true := by decide +kernel
 
 /-- `Option`: none ↔ some between two strings -/
 def exOpt (o : View) : View := .elem "div" [.str "id" "x"] (.tuple [.text "a", o, .text "b"])
-example : wfV [[]] (exOpt .onone) = true := by decide
-example : toHtml (exOpt .onone) = "<div id=\"x\">a<!>b</div>".toList := by decide
-example : toHtml (exOpt (.osome (.text "m"))) = "<div id=\"x\">a<!>m<!>b</div>".toList := by decide
-example : loadOK (domOf (exOpt .onone)) = true := by decide
-example : likeCsr (domOf (exOpt .onone)) (exOpt .onone) (exOpt (.osome (.text "m"))) = true := by decide
+example : wfV [[]] (exOpt .onone) = true := by decide +kernel
+example : toHtml (exOpt .onone) = "<div id=\"x\">a<!>b</div>".toList := by decide +kernel
+example : toHtml (exOpt (.osome (.text "m"))) = "<div id=\"x\">a<!>m<!>b</div>".toList := by decide +kernel
+example : loadOK (domOf (exOpt .onone)) = true := by decide +kernel
+example : likeCsr (domOf (exOpt .onone)) (exOpt .onone) (exOpt (.osome (.text "m"))) = true := by decide +kernel
 example : likeCsr (domOf (exOpt (.osome (.text "m")))) (exOpt (.osome (.text "m"))) (exOpt .onone) = true := by
-  decide
+  decide +kernel
 
 /-- a `Vec` of elements followed by a sibling: the trailing `<!>` is where new items go -/
 def exItem (s : String) : View := .elem "b" [] (.tuple [.text s])
 def exVec (items : List View) : View := .tuple [.vec items, .elem "i" [] (.tuple [.text "s"])]
-example : wfV [[]] (exVec [exItem "1", exItem "2"]) = true := by decide
-example : toHtml (exVec [exItem "1", exItem "2"]) = "<b>1</b><b>2</b><!><i>s</i>".toList := by decide
-example : loadOK (domOf (exVec [exItem "1", exItem "2"])) = true := by decide
+example : wfV [[]] (exVec [exItem "1", exItem "2"]) = true := by decide +kernel
+example : toHtml (exVec [exItem "1", exItem "2"]) = "<b>1</b><b>2</b><!><i>s</i>".toList := by decide +kernel
+example : loadOK (domOf (exVec [exItem "1", exItem "2"])) = true := by decide +kernel
 example : likeCsr (domOf (exVec [exItem "1", exItem "2"])) (exVec [exItem "1", exItem "2"])
-    (exVec [exItem "1", exItem "2", exItem "3"]) = true := by decide
-example : likeCsr (domOf (exVec [])) (exVec []) (exVec [exItem "1"]) = true := by decide
+    (exVec [exItem "1", exItem "2", exItem "3"]) = true := by decide +kernel
+example : likeCsr (domOf (exVec [])) (exVec []) (exVec [exItem "1"]) = true := by decide +kernel
 
 /-- an `Either` switch next to a string, and a void element -/
 example : likeCsr (domOf (.tuple [.either 2 0 (.text "l"), .text "s", .elem "br" [] .unit]))
     (.tuple [.either 2 0 (.text "l"), .text "s", .elem "br" [] .unit])
-    (.tuple [.either 2 1 (exItem "r"), .text "s", .elem "br" [] .unit]) = true := by decide
+    (.tuple [.either 2 1 (exItem "r"), .text "s", .elem "br" [] .unit]) = true := by decide +kernel
 
 /-- a mismatching DOM is an observable error, not a silent success: a string view against `<b></b>` -/
-example : (hydrateFrom (loadRoot [.elem ['b'] [] []]).1 0 (.text "a")).toOption.isNone = true := by decide
+example : (hydrateFrom (loadRoot [.elem ['b'] [] []]).1 0 (.text "a")).toOption.isNone = true := by decide +kernel
 
 end examples
 
